@@ -5,6 +5,14 @@ are only called under a lock (checked against the extracted call rows by
 `C18_caller_holds`), which lock expressions are the same mutex, and the pairs that
 were examined and are real unsynchronised accesses (`knownRacy`, known-findings.txt).
 A function that is not listed is assumed callable from any goroutine (`Cls.api`).
+
+Names: functions are named as in the source.  Fields, mutexes and closures are named by ROLE, so that renaming an
+unexported field, a mutex or a closure variable changes neither the generated table nor this file: a field that a
+table speaks about keeps the name it had when it was reviewed (`headerfs.headerStore.mtx`, `blockManager.newHeadersMtx`,
+`cfiltersQuery.targetFilter`, `ChainService.GetBlock.foundBlock`; the extractor finds the field that plays the role by
+that name, else by type and ordinal — extract/accesstable.go `fieldRoles`), every other mutex is `Struct.mutex#k`, a
+closure registered as a work-manager callback is `Func$callback`.  `Gen.AccessNames.goNames` maps each such name to
+today's Go identifier; the diagnostics of Props/C18.lean print both.
 -/
 import Neutrino.Model.Lockset
 namespace Neutrino.Lockset
@@ -81,7 +89,7 @@ def reviewedCallbacks : List Callback := [
   -- GetCFilter issues `[]*query.Request{filterQuery.request()}`: one request, whose handler accepts many cfilter messages
   ⟨N.«cfiltersQuery.handleResponse», false⟩,
   -- GetBlock issues one getdata request
-  ⟨N.«ChainService.GetBlock$handleResp», false⟩]
+  ⟨N.«ChainService.GetBlock$callback», false⟩]
 
 def rVerdict := "(valid for accesses confined to the success verdict: C18_ordered_only_on_success) the reader runs only after it has received the nil verdict of the query from errChan; the dispatcher sends that verdict after it has received the worker's result for the (single) job, and the worker reports after its last callback invocation: callback -> result -> verdict -> read"
 
@@ -89,7 +97,7 @@ def rVerdict := "(valid for accesses confined to the success verdict: C18_ordere
 def ordered : List Ordered := [
   ⟨N.«cfiltersQuery.targetFilter», N.«cfiltersQuery.handleResponse», N.«ChainService.GetCFilter», rVerdict⟩,
   ⟨N.«cfiltersQuery.headerIndex», N.«cfiltersQuery.handleResponse», N.«ChainService.GetCFilter», rVerdict⟩,
-  ⟨N.«ChainService.GetBlock.foundBlock», N.«ChainService.GetBlock$handleResp», N.«ChainService.GetBlock», rVerdict⟩]
+  ⟨N.«ChainService.GetBlock.foundBlock», N.«ChainService.GetBlock$callback», N.«ChainService.GetBlock», rVerdict⟩]
 
 def tables : Tables := ⟨owners, allCallerHolds, lockAlias, knownRacy, ordered⟩
 
